@@ -49,6 +49,38 @@ fn main() {
                 std::process::exit(2);
             }
         },
+        "corpus" => {
+            // seed corpus for the libFuzzer supplement: options byte + message bytes
+            let out = PathBuf::from(arg(&args, "--out").expect("--out"));
+            let seed: u64 = arg(&args, "--seed").and_then(|s| s.parse().ok()).unwrap_or(1);
+            let _ = std::fs::create_dir_all(&out);
+            let mut rng = rng::Rng::new(seed ^ 0xC0FFEE);
+            let cfg = gen::GenCfg { max_blob: 64 };
+            let mut n = 0;
+            let mut put = |b: &[u8], rng: &mut rng::Rng| {
+                let mut v = vec![rng.next_u64() as u8];
+                v.extend_from_slice(b);
+                let _ = std::fs::write(out.join(format!("seed-{:04}", n)), v);
+                n += 1;
+            };
+            for v in [
+                &stun_vectors::SAMPLE_REQUEST[..],
+                &stun_vectors::SAMPLE_IPV4_RESPONSE[..],
+                &stun_vectors::SAMPLE_IPV6_RESPONSE[..],
+                &stun_vectors::SAMPLE_REQUEST_LONG_TERM_AUTH[..],
+                &stun_vectors::SAMPLE_REQUEST_LONG_TERM_AUTH_SHA256[..],
+            ] {
+                for _ in 0..4 {
+                    put(v, &mut rng);
+                }
+            }
+            for _ in 0..300 {
+                let m = gen::message(&mut rng, 6, &cfg);
+                let b = refstun::wire::build(&m, &mut refstun::wire::RngNoise(&mut rng));
+                put(&b, &mut rng);
+            }
+            println!("wrote {} corpus files", n);
+        }
         "merge-hashes" => {
             let mut set: HashSet<u64> = HashSet::new();
             for p in &args[2..] {
